@@ -1,7 +1,7 @@
 """C04 -- every raised exception becomes the response its most specific handler defines."""
 from __future__ import annotations
 
-from pyvc.core import And, ExcVal, Iff, Implies, Ite, Len, Not, Obj, Or, PyRaise, SDict
+from pyvc.core import And, ExcVal, Iff, Implies, Ite, Len, Not, Obj, Or, PyRaise, SDict, Unreached
 from pyvc.harness import Ready, Registry, harness, stubclass
 
 PROP = 'C04'
@@ -74,7 +74,67 @@ def find_error_handler(v):
 # ---------------------------------------------------------------------------
 # shared stubs
 
-from contracts.C20_cors import Map, header_map, map_of  # noqa: E402
+import z3  # noqa: E402
+
+from pyvc.core import Store, _s, mk_bool, mk_str, opt_sort  # noqa: E402
+
+
+class Map:
+    """Immutable header map for the specification side: an SMT array (symbolic run) or a python dict (replay)."""
+
+    def __init__(self, raw):
+        self.raw = raw
+
+    @property
+    def sym(self):
+        return not isinstance(self.raw, dict)
+
+    def put(self, k, val):
+        if self.sym:
+            return Map(Store(self.raw, k, val))
+        d = dict(self.raw)
+        d[k] = val
+        return Map(d)
+
+    def has(self, k):
+        if self.sym:
+            return mk_bool(opt_sort().is_some(z3.Select(self.raw, _s(k))))
+        return k in self.raw
+
+    def val(self, k):
+        if self.sym:
+            return mk_str(opt_sort().val(z3.Select(self.raw, _s(k))), 'str')
+        return self.raw.get(k, '')
+
+    def eq(self, other):
+        if self.sym:
+            return mk_bool(self.raw == other.raw)
+        return self.raw == other.raw
+
+
+def header_map(v, keys, base='H'):
+    """An arbitrary header map; its entries at `keys` are named inputs so that counter-models replay."""
+    if v.concrete:
+        d = {}
+        for k in keys:
+            p = v.bool('%s_has_%s' % (base, k))
+            s = v.str('%s_val_%s' % (base, k))
+            if p:
+                d[k] = s
+        return d, Map(dict(d))
+    sd = SDict.fresh(v.ctx, base)
+    O = opt_sort()
+    for k in keys:
+        p = v.bool('%s_has_%s' % (base, k))
+        s = v.str('%s_val_%s' % (base, k))
+        sel = z3.Select(sd.arr, _s(k))
+        v.assume(mk_bool(z3.If(p.t, sel == O.some(s.t), sel == O.none)))
+    return sd, Map(sd.arr)
+
+
+def map_of(v, resp):
+    h = v.get(resp, '_headers')
+    return Map(h.arr if isinstance(h, SDict) else dict(h))
 
 RESP_INLINE = [RESP + '.set_headers', RESP + '.data', RESP + '.media', RESP + '.append_header']
 
@@ -281,12 +341,907 @@ def asgi_handle_exception(v):
     handle_exception(v, True)
 
 
+
+# ---------------------------------------------------------------------------
+# the registry: add_error_handler, App.__init__
+
+
+def argnames_of(fn):
+    """inspect.signature-based falcon.util.misc.get_argnames, also for interpreted functions (their def's parameter list)."""
+    from pyvc.interp import BoundMethod, Closure
+
+    if isinstance(fn, BoundMethod):
+        return argnames_of(fn.func)[1:] if isinstance(fn.func, Closure) else argnames_of(fn.func)
+    if isinstance(fn, Closure):
+        a = fn.node.args
+        names = [x.arg for x in a.posonlyargs + a.args + a.kwonlyargs]
+        return names[1:] if names[:1] == ['self'] else names
+    import falcon.util.misc as misc
+
+    return misc.get_argnames(fn)
+
+
+def _is_coroutine_function(fn):
+    from pyvc.interp import BoundMethod, Closure
+    import inspect
+
+    if isinstance(fn, BoundMethod):
+        fn = fn.func
+    if isinstance(fn, Closure):
+        return fn.is_async
+    return inspect.iscoroutinefunction(fn)
+
+
+def _is_python_func(fn):
+    from pyvc.interp import BoundMethod, Closure
+    import falcon.util.misc as misc
+
+    if isinstance(fn, (BoundMethod, Closure)):
+        return True
+    return misc.is_python_func(fn)
+
+
+def _registry_setup(reg, ex):
+    import builtins
+    import inspect
+    import warnings
+
+    def m_tuple(I, x=()):
+        if isinstance(x, type) and not hasattr(type(x), '__iter__'):
+            I.ctx.raise_py(TypeError, "'type' object is not iterable")
+        return tuple(I.iterate(x))
+
+    reg.add_model(builtins.tuple, m_tuple)
+    reg.add_model(warnings.warn, lambda I, *a, **k: None)
+    reg.add_model(inspect.iscoroutinefunction, lambda I, fn: _is_coroutine_function(fn))
+    reg.stubs['falcon.util.misc:get_argnames'] = lambda I, fn: argnames_of(fn)
+    reg.stubs['falcon.util.misc:is_python_func'] = lambda I, fn: _is_python_func(fn)
+
+
+class Plain:
+    """A class that is not an exception type."""
+
+
+@stubclass
+class LegacyHandler:
+    """A handler with the pre-3.0 signature (ex, req, resp, params)."""
+
+    def __init__(self, name):
+        self.__qualname__ = name
+        self.calls = []
+
+    def __call__(self, ex, req, resp, params):
+        self.calls.append((ex, req, resp, params))
+
+
+async def _async_handle(req, resp, ex, params):
+    pass
+
+
+def _sync_handle(req, resp, ex, params):
+    pass
+
+
+def invoke(v, fn, *args):
+    if v.concrete:
+        return fn(*args)
+    return v.interp.call(fn, list(args), {})
+
+
+def default_registry(v):
+    return {Exception: Tok('default-python'), v.real('falcon:HTTPError'): Tok('default-http-error'), v.real('falcon:HTTPStatus'): Tok('default-http-status')}
+
+
+def registry_history(v, asgi):
+    """Three registrations in an arbitrary order over a small hierarchy: the last one per class wins."""
+    C = type('C', (Exception,), {})
+    D = type('D', (C,), {})
+    HTTPError = v.real('falcon:HTTPError')
+    R = default_registry(v)
+    spec = dict(R)
+    app = v.obj(AAPP if asgi else APP, _error_handlers=R)
+    n = 1 + v.choose(3, 'history-length')
+    for i in range(n):
+        cls = [C, D, Exception, HTTPError][v.choose(4, 'class#%d' % i)]
+        h = Handler(v, 'h%d' % i, asgi)
+        out = v.call(app, cls, h)
+        v.check('accepts-an-exception-class', out.exc is None)
+        if out.exc is not None:
+            return
+        spec[cls] = h
+    got = v.get(app, '_error_handlers')
+    v.check('registry-domain-is-defaults-plus-registered', set(got) == set(spec))
+    v.check('latest-registration-per-class-wins', all(got.get(k) is spec[k] for k in spec))
+    v.check('default-handler-classes-stay-registered', all(k in got for k in (Exception, HTTPError, v.real('falcon:HTTPStatus'))))
+    v.cover('history-done')
+
+
+def registry_shapes(v, asgi):
+    """One registration: argument shapes (class / iterable / non-exception class) and handler kinds (given / legacy / default handle)."""
+    handle_fn = _async_handle if asgi else _sync_handle
+    C = type('C', (Exception,), {'handle': staticmethod(handle_fn)})
+    D = type('D', (C,), {})
+    N = type('N', (BaseException,), {})  # no `handle`
+    old = Tok('older-handler-of-C')
+    R = default_registry(v)
+    R[C] = old
+    R0 = dict(R)
+    app = v.obj(AAPP if asgi else APP, _error_handlers=R)
+    shape = v.choose(7, 'exception-arg')
+    arg, classes, bad = [
+        (C, [C], None),
+        ((C, N), [C, N], None),
+        ([D, C, D], [D, C], None),
+        (frozenset([N]), [N], None),
+        (Plain, [], Plain),
+        ((C, Plain, N), [C], Plain),
+        (N, [N], None),
+    ][shape]
+    kind = v.choose(2 if asgi else 3, 'handler-kind')  # 0 explicit, 1 omitted, 2 legacy signature (WSGI only)
+    h = [Handler(v, 'h', asgi), None, LegacyHandler('legacy')][kind]
+    out = v.call(app, arg, h) if kind != 1 else v.call(app, arg)
+    got = v.get(app, '_error_handlers')
+    if kind == 1 and shape != 0:
+        # no explicit handler: only a single class that defines `handle` is acceptable
+        v.check('omitted-handler-without-handle-attribute-rejected', out.exc is not None and out.exc.isa(AttributeError))
+        v.check('rejected-registration-changes-nothing', set(got) == set(R0) and all(got[k] is R0[k] for k in R0))
+        v.cover('no-default-handle')
+        return
+    if bad is not None:
+        v.check('non-exception-class-rejected-with-typeerror', out.exc is not None and out.exc.isa(TypeError))
+        v.check('non-exception-class-never-registered', bad not in got)
+        v.check('default-handler-classes-stay-registered', all(k in got and got[k] is R0[k] for k in default_registry(v)))
+        v.cover('rejected')
+        return
+    v.check('accepts-class-or-iterable-of-classes', out.exc is None)
+    if out.exc is not None:
+        return
+    v.check('registry-domain-is-previous-plus-registered', set(got) == set(R0) | set(classes))
+    v.check('other-classes-keep-their-handler', all(got[k] is R0[k] for k in R0 if k not in classes))
+    if kind == 0:
+        v.check('latest-registration-per-class-wins', all(got[c] is h for c in classes))
+    elif kind == 1:
+        v.check('omitted-handler-defaults-to-exception-handle', got[C] is handle_fn)
+        v.cover('default-handle')
+    else:
+        # the legacy shim: the registered callable takes (req, resp, ex, params) and forwards (ex, req, resp, params)
+        w = got[classes[0]]
+        v.check('legacy-handler-registered-for-every-class', all(got[c] is w for c in classes) and w is not old)
+        a = [Tok('req'), Tok('resp'), Tok('ex'), Tok('params')]
+        invoke(v, w, *a)
+        v.check('legacy-handler-called-with-reordered-arguments',
+                len(h.calls) == 1 and all(x is y for x, y in zip(h.calls[0], (a[2], a[0], a[1], a[3]))))
+        v.cover('legacy')
+    v.cover('registered')
+
+
+ASYNC_INLINE = ['falcon.util.sync:_wrap_non_coroutine_unsafe', 'falcon.util.sync:_should_wrap_non_coroutines']
+
+
+@harness(PROP, APP + '.add_error_handler', setup=_registry_setup)
+def wsgi_add_error_handler_history(v):
+    registry_history(v, False)
+
+
+@harness(PROP, APP + '.add_error_handler', setup=_registry_setup)
+def wsgi_add_error_handler_shapes(v):
+    registry_shapes(v, False)
+
+
+@harness(PROP, AAPP + '.add_error_handler', setup=_registry_setup, inline=ASYNC_INLINE)
+def asgi_add_error_handler_history(v):
+    registry_history(v, True)
+
+
+@harness(PROP, AAPP + '.add_error_handler', setup=_registry_setup, inline=ASYNC_INLINE)
+def asgi_add_error_handler_shapes(v):
+    registry_shapes(v, True)
+
+
+
+def _init_setup(reg, ex):
+    _registry_setup(reg, ex)
+    # constructors/registrations of other components: they own other objects/fields (read: none touches _error_handlers)
+    for key in ('falcon.app:App.add_middleware', 'falcon.routing.compiled:CompiledRouter.__init__', 'falcon.request:RequestOptions.__init__',
+                'falcon.response:ResponseOptions.__init__', 'falcon.middleware:CORSMiddleware.__init__', 'falcon.asgi.ws:WebSocketOptions.__init__'):
+        reg.stubs[key] = lambda I, self, *a, **k: None
+
+
+def _is_method(v, got, app, name):
+    from pyvc.interp import BoundMethod
+
+    if v.concrete:
+        return getattr(got, '__self__', None) is app and getattr(got, '__func__', None) is getattr(type(app), name)
+    return isinstance(got, BoundMethod) and got.self_obj is app and got.func.qualname == 'App.' + name and got.func.defcls is app._cls
+
+
+def app_init(v, asgi):
+    cls = v.real(AAPP if asgi else APP)
+    app = v.obj(cls)
+    out = v.call(app, cors_enable=bool(v.choose(2, 'cors_enable')))
+    v.check('no-exception', out.exc is None)
+    if out.exc is not None:
+        return
+    got = v.get(app, '_error_handlers')
+    HTTPError, HTTPStatus = v.real('falcon:HTTPError'), v.real('falcon:HTTPStatus')
+    v.check('exception-handled-by-python-error-handler', Exception in got and _is_method(v, got[Exception], app, '_python_error_handler'))
+    v.check('http-error-handled-by-http-error-handler', HTTPError in got and _is_method(v, got[HTTPError], app, '_http_error_handler'))
+    v.check('http-status-handled-by-http-status-handler', HTTPStatus in got and _is_method(v, got[HTTPStatus], app, '_http_status_handler'))
+    extra = {v.real('falcon.errors:WebSocketDisconnected')} if asgi else set()
+    v.check('no-other-default-handlers', set(got) == {Exception, HTTPError, HTTPStatus} | extra)
+    v.check('default-serializer-is-default_serialize_error', v.get(app, '_serialize_error') is v.real('falcon.app_helpers:default_serialize_error'))
+    v.cover('constructed')
+
+
+@harness(PROP, APP + '.__init__', setup=_init_setup, inline=[APP + '.add_error_handler'])
+def wsgi_app_init(v):
+    app_init(v, False)
+
+
+@harness(PROP, AAPP + '.__init__', setup=_init_setup, inline=[APP + '.__init__', AAPP + '.add_error_handler'] + ASYNC_INLINE)
+def asgi_app_init(v):
+    app_init(v, True)
+
+
+
+# ---------------------------------------------------------------------------
+# rendering: _compose_status_response / _compose_error_response and the three default handlers
+
+
+def raised_headers(v, base):
+    """Headers of a raised HTTPError/HTTPStatus: none / arbitrary names / the one name Response.set_headers refuses."""
+    k = v.choose(3, base + '-header-kind')
+    if k == 0:
+        return None, [], False
+    if k == 1:
+        n, val = v.str(base + '_hname'), v.str(base + '_hval')
+        v.assume(n.lower() != 'set-cookie')
+        return ({n: val} if v.choose(2, base + '-headers-as-dict') else [(n, val)]), [(n, val)], False
+    n = v.one_of(base + '-cookie-spelling', 'Set-Cookie', 'set-cookie')
+    val = v.str(base + '_cookie')
+    return {n: val}, [(n, val)], True
+
+
+def compose_status_response(v):
+    app = v.obj(APP, _serialize_error=Serializer(v))
+    req = Req(v)
+    resp, H0 = mk_resp(v, with_body=bool(v.choose(2, 'resp-has-body')))
+    before = {k: v.get(resp, k) for k in ('_data', '_media', '_media_rendered')}
+    hdrs, pairs, cookie = raised_headers(v, 'st')
+    text = v.str('st_text') if v.choose(2, 'st-text?') else None
+    st = mk_exc(v, v.real('falcon:HTTPStatus'), status=v.str('st_status'), headers=hdrs, text=text)
+    out = v.call(app, req, resp, st)
+    if cookie:
+        v.cover('status-with-set-cookie')
+        v.check('set-cookie-among-status-headers-does-not-escape', out.exc is None)
+        return
+    v.check('no-exception', out.exc is None)
+    if out.exc is not None:
+        return
+    v.check('status-copied', v.get(resp, 'status') == (st.status if v.concrete else st.fields['status']))
+    v.check('headers-copied-others-unchanged', map_of(v, resp).eq(headers_after(H0, pairs)))
+    v.check('text-copied', (v.get(resp, 'text') is None) if text is None else (v.get(resp, 'text') == text))
+    v.check('data-and-media-untouched', all(v.get(resp, k) is before[k] for k in before))
+    v.check('status-is-not-serialized-as-error', len(v.get(app, '_serialize_error').calls) == 0)
+    v.cover('status-composed')
+
+
+def compose_error_response(v):
+    ser = Serializer(v)
+    app = v.obj(APP, _serialize_error=ser)
+    req = Req(v)
+    resp, H0 = mk_resp(v, with_body=False)
+    hdrs, pairs, cookie = raised_headers(v, 'err')
+    err = mk_exc(v, v.real('falcon:HTTPError'), status=v.str('err_status'), headers=hdrs, title=v.str('err_title'), description=None, code=None, link=None)
+    out = v.call(app, req, resp, err)
+    if cookie:
+        v.cover('error-with-set-cookie')
+        v.check('set-cookie-among-error-headers-does-not-escape', out.exc is None)
+        return
+    v.check('no-exception', out.exc is None)
+    if out.exc is not None:
+        return
+    v.check('status-copied', v.get(resp, 'status') == (err.status if v.concrete else err.fields['status']))
+    v.check('headers-copied-others-unchanged', map_of(v, resp).eq(headers_after(H0, pairs)))
+    v.check('serialization-delegated-once-to-configured-serializer', len(ser.calls) == 1)
+    if len(ser.calls) == 1:
+        c = ser.calls[0]
+        v.check('serializer-gets-req-resp-error', c[0] is req and c[1] is resp and c[2] is err)
+    v.cover('error-composed')
+
+
+for _k in (0, 1, 2):
+    harness(PROP, APP + '._compose_status_response', name='compose_status_response[headers=%s]' % ['none', 'any', 'set-cookie'][_k], inline=RESP_INLINE,
+            fix={'st-header-kind': _k})(compose_status_response)
+    harness(PROP, APP + '._compose_error_response', name='compose_error_response[headers=%s]' % ['none', 'any', 'set-cookie'][_k], inline=RESP_INLINE,
+            fix={'err-header-kind': _k})(compose_error_response)
+
+
+def _quiet_logger(reg, ex):
+    import logging
+
+    reg.add_model(logging.Logger.error, lambda I, self, *a, **k: None)
+
+
+def default_handler(v, asgi, which):
+    """_http_status_handler / _http_error_handler / _python_error_handler: what they leave on the response."""
+    ser = Serializer(v)
+    app = v.obj(AAPP if asgi else APP, _serialize_error=ser)
+    req = Req(v)
+    resp, H0 = mk_resp(v, with_body=False)
+    params = {}
+    HTTPStatus, HTTPError = v.real('falcon:HTTPStatus'), v.real('falcon:HTTPError')
+    if which == 'status':
+        text = v.str('st_text') if v.choose(2, 'st-text?') else None
+        ex = mk_exc(v, HTTPStatus, status=v.str('st_status'), headers=None, text=text)
+    elif which == 'error':
+        ex = mk_exc(v, HTTPError, status=v.str('err_status'), headers=None, title=v.str('err_title'), description=None, code=None, link=None)
+    else:
+        ex = mk_exc(v, [Sub, KeyError, Exception][v.choose(3, 'raised')])
+    out = v.call(app, req, resp, ex, params)
+    v.check('never-re-raises' if which == 'python' else 'returns-normally', out.exc is None and out.value is None)
+    if out.exc is not None:
+        return
+    v.check('headers-untouched', map_of(v, resp).eq(H0))
+    if which == 'status':
+        v.check('renders-the-http-status', And(v.get(resp, 'status') == (ex.status if v.concrete else ex.fields['status']),
+                                               (v.get(resp, 'text') is None) if text is None else (v.get(resp, 'text') == text), len(ser.calls) == 0))
+    elif which == 'error':
+        v.check('renders-the-http-error', And(v.get(resp, 'status') == (ex.status if v.concrete else ex.fields['status']),
+                                              len(ser.calls) == 1 and ser.calls[0][0] is req and ser.calls[0][1] is resp and ser.calls[0][2] is ex))
+    else:
+        v.check('any-other-exception-becomes-a-500', v.get(resp, 'status') == '500 Internal Server Error')
+        e = ser.calls[0][2] if len(ser.calls) == 1 else None
+        e = e.real if isinstance(e, ExcVal) else e
+        v.check('the-500-is-serialized-as-an-http-error', isinstance(e, v.real('falcon:HTTPInternalServerError')) and ser.calls[0][0] is req and ser.calls[0][1] is resp
+                and e.title == '500 Internal Server Error' and e.description is None and e.headers is None)
+    v.cover('handled')
+
+
+for _asgi in (False, True):
+    for _which in ('status', 'error', 'python'):
+        harness(PROP, (AAPP if _asgi else APP) + '._%s_handler' % {'status': 'http_status', 'error': 'http_error', 'python': 'python_error'}[_which],
+                name='%s_%s_handler' % ('asgi' if _asgi else 'wsgi', _which), setup=_quiet_logger,
+                inline=[APP + '._compose_status_response', APP + '._compose_error_response'] + RESP_INLINE)(
+            (lambda a, w: lambda v: default_handler(v, a, w))(_asgi, _which))
+
+
+
+# ---------------------------------------------------------------------------
+# HTTPError: construction, to_dict, to_json, _to_xml
+
+HE = 'falcon.http_error:HTTPError'
+MEDIA_JSON, MEDIA_XML = 'application/json', 'application/xml'
+DEFAULT_LINK_TEXT = 'Documentation related to this error'
+
+
+def _sym(x):
+    from pyvc.core import is_sym
+
+    return is_sym(x)
+
+
+def uri_encode(v, s):
+    """falcon.util.uri.encode: opaque, deterministic (RFC 3986 escaping itself is not decided here)."""
+    if v.concrete:
+        return v.real('falcon.util.uri:encode')(s)
+    return v.ctx.str_fn('uri_encode', s) if _sym(s) else v.real('falcon.util.uri:encode')(s)
+
+
+def _error_setup(reg, ex):
+    import xml.etree.ElementTree as et
+
+    import falcon.util.uri as uri
+
+    reg.add_model(uri.encode, lambda I, s: I.ctx.str_fn('uri_encode', s) if _sym(s) else uri.encode(s))
+    import falcon.util.misc as misc
+
+    c2s = misc.code_to_http_status  # an lru_cache wrapper; its contract (C05): a str status that has a reason phrase is returned as is
+
+    def m_c2s(I, st):
+        if not _sym(st):
+            return c2s(st)
+        if I.truth(st.contains(' ')):
+            return st
+        raise Unreached('code_to_http_status on a str status without reason phrase (int()/ValueError behaviour: C05)')
+
+    reg.add_model(c2s, m_c2s)
+
+    def default_json(I, self, media, content_type=None):
+        tok = I.ctx.fresh_bytes('default_json_bytes')
+        I.ctx.ghost.setdefault('default_json', []).append((media, content_type, tok))
+        return tok
+
+    reg.stubs['falcon.media.json:JSONHandler._serialize_s'] = default_json
+    reg.stubs['falcon.media.json:JSONHandler._serialize_b'] = default_json
+
+    # xml.etree.ElementTree: the element tree is kept as a tree, the encoder is opaque
+    reg.add_model(et.Element, lambda I, tag: XEl(tag))
+
+    def sub(I, parent, tag):
+        e = XEl(tag)
+        parent.children.append(e)
+        return e
+
+    def tostring(I, el, encoding=None):
+        tok = I.ctx.fresh_bytes('xml_bytes')
+        I.ctx.ghost.setdefault('xml', []).append((el, encoding, tok))
+        return tok
+
+    reg.add_model(et.SubElement, sub)
+    reg.add_model(et.tostring, tostring)
+
+
+@stubclass
+class XEl:
+    def __init__(self, tag):
+        self.tag = tag
+        self.text = None
+        self.children = []
+
+    def shape(self):
+        return [(c.tag, c.text, c.shape()) for c in self.children]
+
+
+def error_fields(v, link_as_built=True):
+    f = {'title': v.str('title'),
+         'description': v.str('description') if v.choose(2, 'description?') else None,
+         'code': v.int('code') if v.choose(2, 'code?') else None}
+    if v.choose(2, 'link?'):
+        f['link'] = {'text': v.str('link_text'), 'href': v.str('link_href'), 'rel': 'help'}
+    else:
+        f['link'] = None
+    return f
+
+
+def mk_http_error(v, f, headers=None):
+    return v.obj(HE, status=v.str('err_status'), headers=headers, **f)
+
+
+def expected_dict(f):
+    exp = {'title': f['title']}
+    for k in ('description', 'code', 'link'):
+        if f[k] is not None:
+            exp[k] = f[k]
+    return exp
+
+
+def veq(a, b):
+    if isinstance(a, dict) or isinstance(b, dict):
+        return isinstance(a, dict) and isinstance(b, dict) and list(a) == list(b) and And(*[veq(a[k], b[k]) for k in a])
+    if a is None or b is None:
+        return a is b
+    return a == b
+
+
+def dict_is(d, exp):
+    """d has exactly the keys of exp, in that order, with equal values."""
+    return isinstance(d, dict) and veq(d, exp)
+
+
+@harness(PROP, HE + '.to_dict')
+def http_error_to_dict(v):
+    f = error_fields(v)
+    err = mk_http_error(v, f)
+    out = v.call(err)
+    v.check('no-exception', out.exc is None)
+    if out.exc is not None:
+        return
+    d = out.value
+    v.check('title-always-present', isinstance(d, dict) and 'title' in d and veq(d['title'], f['title']))
+    for k in ('description', 'code', 'link'):
+        v.check('%s-present-iff-not-none' % k, (k in d) == (f[k] is not None))
+    v.check('exactly-title-and-the-non-none-fields-with-their-values', dict_is(d, expected_dict(f)))
+    v.cover('dict')
+
+
+@harness(PROP, HE + '.__init__', setup=_error_setup)
+def http_error_init(v):
+    err = v.obj(HE)
+    status = v.str('status')
+    v.assume(contains(status, ' '))  # a status line "ddd reason"; other accepted forms are normalised by code_to_http_status (C05)
+    kw = {}
+    title = kw['title'] = v.str('title') if v.choose(2, 'title?') else None
+    description = kw['description'] = v.str('description') if v.choose(2, 'description?') else None
+    code = kw['code'] = v.int('code') if v.choose(2, 'code?') else None
+    href = kw['href'] = v.str('href') if v.choose(2, 'href?') else None
+    href_text = kw['href_text'] = v.str('href_text') if v.choose(2, 'href_text?') else None
+    headers = kw['headers'] = {'X-A': 'b'} if v.choose(2, 'headers?') else None
+    out = v.call(err, status, **kw)
+    v.check('no-exception', out.exc is None)
+    if out.exc is not None:
+        return
+    g = lambda k: v.get(err, k)  # noqa: E731
+    v.check('status-description-code-headers-stored', And(veq(g('status'), status), veq(g('description'), description), veq(g('code'), code), g('headers') is headers))
+    if title is not None and Len(title) > 0:
+        v.check('given-title-kept', g('title') == title)
+    else:
+        v.check('title-defaults-to-status-line', g('title') == status)
+    if href is not None and Len(href) > 0:
+        text = href_text if (href_text is not None and Len(href_text) > 0) else DEFAULT_LINK_TEXT
+        v.check('link-built-from-href-and-href-text', dict_is(g('link'), {'text': text, 'href': uri_encode(v, href), 'rel': 'help'}))
+        v.cover('link')
+    else:
+        v.check('no-link-without-href', g('link') is None)
+
+
+@stubclass
+class JsonH:
+    """A media handler (BaseHandler): an opaque encoder that records what it is given."""
+
+    def __init__(self, v, name='custom'):
+        self.v = v
+        self.name = name
+        self.calls = []
+
+    def serialize(self, media, content_type):
+        import json
+
+        tok = json.dumps(media).encode() if self.v.concrete else self.v.bytes('handler_bytes')
+        self.calls.append((media, content_type, tok))
+        return tok
+
+
+def json_of(data):
+    import json
+
+    try:
+        return json.loads(data)
+    except Exception:
+        return NotImplemented
+
+
+@harness(PROP, HE + '.to_json', setup=_error_setup, inline=[HE + '.to_dict'])
+def http_error_to_json(v):
+    f = error_fields(v)
+    err = mk_http_error(v, f)
+    h = JsonH(v) if v.choose(2, 'handler-given?') else None
+    out = v.call(err, h)
+    v.check('no-exception', out.exc is None)
+    if out.exc is not None:
+        return
+    exp = expected_dict(f)
+    if h is not None:
+        v.check('given-handler-encodes-exactly-the-dict-as-json', len(h.calls) == 1 and dict_is(h.calls[0][0], exp) and h.calls[0][1] == MEDIA_JSON and out.value is h.calls[0][2])
+    elif v.concrete:
+        v.check('default-json-handler-encodes-exactly-the-dict', veq(json_of(out.value), exp))
+    else:
+        calls = v.ctx.ghost.get('default_json', [])
+        v.check('default-json-handler-encodes-exactly-the-dict', len(calls) == 1 and dict_is(calls[0][0], exp) and calls[0][1] == MEDIA_JSON and out.value is calls[0][2])
+    v.cover('json')
+
+
+XML_DECL = b'<?xml version="1.0" encoding="UTF-8"?>'
+
+
+def expected_xml_shape(v, f):
+    sh = [('title', f['title'], [])]
+    if f['description'] is not None:
+        sh.append(('description', f['description'], []))
+    if f['code'] is not None:
+        sh.append(('code', str(f['code']) if (v.concrete or not _sym(f['code'])) else v.interp.to_str(f['code']), []))
+    if f['link'] is not None:
+        sh.append(('link', None, [(k, f['link'][k], []) for k in ('text', 'href', 'rel')]))
+    return sh
+
+
+def shape_eq(a, b):
+    if len(a) != len(b):
+        return False
+    return And(*[x[0] == y[0] and And(veq(x[1], y[1]), shape_eq(x[2], y[2])) for x, y in zip(a, b)])
+
+
+def xml_doc_is(v, data, f):
+    """`data` is the XML declaration followed by the encoding of <error> with exactly the expected children, in order."""
+    if v.concrete:
+        import xml.etree.ElementTree as et
+
+        if not isinstance(data, bytes) or not data.startswith(XML_DECL):
+            return False
+        root = et.fromstring(data)
+
+        def sh(e):
+            return [(c.tag, (c.text or '') if len(c) == 0 else None, sh(c)) for c in e]
+
+        exp = [(t, (x or '') if x is not None else None, c) for t, x, c in expected_xml_shape(v, f)]
+        exp = [(t, x, [(ct, cx or '', cc) for ct, cx, cc in c]) for t, x, c in exp]
+        return root.tag == 'error' and sh(root) == exp
+    calls = v.ctx.ghost.get('xml', [])
+    if len(calls) != 1:
+        return False
+    el, enc, tok = calls[0]
+    return And(el.tag == 'error' and el.text is None and enc == 'utf-8', shape_eq(el.shape(), expected_xml_shape(v, f)), data == XML_DECL + tok)
+
+
+@harness(PROP, HE + '._to_xml', setup=_error_setup)
+def http_error_to_xml(v):
+    f = error_fields(v)
+    err = mk_http_error(v, f)
+    out = v.call(err)
+    v.check('no-exception', out.exc is None)
+    if out.exc is not None:
+        return
+    v.check('xml-document-has-exactly-title-and-the-non-none-fields', xml_doc_is(v, out.value, f))
+    v.cover('xml')
+
+
+
+# ---------------------------------------------------------------------------
+# default_serialize_error: negotiation decision table
+
+DSE = 'falcon.app_helpers:default_serialize_error'
+
+
+@stubclass
+class NegReq:
+    """falcon.Request as far as error negotiation uses it: Accept and client_prefers (contract of C11: None or one of the offers)."""
+
+    def __init__(self, v):
+        self.v = v
+        self.accept = v.str('accept')
+        self.offers = []
+
+    def client_prefers(self, media_types):
+        v = self.v
+        offers = list(media_types)
+        self.offers.append(offers)
+        k = v.choose(len(offers) + 1, 'client-prefers')
+        self.last = None if k == 0 else offers[k - 1]
+        return self.last
+
+
+@stubclass
+class MediaHandlers:
+    """resp.options.media_handlers: the registered media types (iteration) and the handler lookup."""
+
+    def __init__(self, v, types):
+        self.v = v
+        self.types = types
+        self.resolves = []
+        self.handler = None
+
+    def __iter__(self):
+        return iter(self.types)
+
+    def __pyvc_iter__(self):
+        return list(self.types)
+
+    def _resolve(self, media_type, default, raise_not_found=True):
+        v = self.v
+        self.resolves.append((media_type, default, raise_not_found))
+        v.check('handler-lookup-for-an-error-cannot-raise', raise_not_found is False)
+        self.handler = JsonH(v) if v.choose(2, 'handler-available?') else None
+        return (self.handler, None, None)
+
+
+@stubclass
+class Options:
+    def __init__(self, xml, handlers):
+        self.xml_error_serialization = xml
+        self.media_handlers = handlers
+
+
+REGISTERED = [
+    [],
+    ['application/json', 'multipart/form-data', 'application/x-www-form-urlencoded'],
+    ['application/yaml', 'application/xml', 'application/json', 'application/msgpack'],
+]
+
+
+def contains(s, sub):
+    return s.contains(sub) if _sym(s) else (sub in s)
+
+
+def default_serialize_error(v):
+    unset = v.real('falcon._typing:_UNSET')
+    xml = bool(v.choose(2, 'xml_error_serialization'))
+    types = REGISTERED[v.choose(3, 'registered-media-types')]
+    mh = MediaHandlers(v, types)
+    req = NegReq(v)
+    resp, H0 = mk_resp(v, with_body=False)
+    v.set(resp, 'options', Options(xml, mh))
+    f = error_fields(v)
+    err = mk_http_error(v, f)
+    out = v.call(req, resp, err)
+    v.check('no-exception', out.exc is None)
+    if out.exc is not None:
+        return
+    H1 = map_of(v, resp)
+
+    # what is offered to the client, in order: JSON first (wins ties), built-in XML only when enabled, then the app's own types
+    predefined = [MEDIA_JSON, 'text/xml', MEDIA_XML] if xml else [MEDIA_JSON]
+    v.check('offers-json-first-then-xml-if-enabled-then-registered-types',
+            len(req.offers) == 1 and req.offers[0] == predefined + [t for t in types if t not in predefined])
+    if len(req.offers) != 1:
+        return
+    preferred = req.last
+    a = req.accept.lower()
+    if preferred is None:
+        if contains(a, '+json'):
+            preferred = MEDIA_JSON
+            v.cover('json-suffix')
+        elif contains(a, '+xml'):
+            preferred = MEDIA_XML
+            v.cover('xml-suffix')
+    vary = (H0.val('vary') + ', Accept') if H0.has('vary') else 'Accept'
+    v.check('vary-accept-appended', And(H1.has('vary'), H1.val('vary') == vary))
+    data, media, rendered = v.get(resp, '_data'), v.get(resp, '_media'), v.get(resp, '_media_rendered')
+    v.check('text-untouched', v.get(resp, 'text') is None)
+    if preferred is None:
+        v.check('nothing-acceptable-no-body', data is None and media is None)
+        v.check('nothing-acceptable-headers-only-gain-vary', H1.eq(H0.put('vary', vary)))
+        v.check('nothing-acceptable-no-handler-lookup', len(mh.resolves) == 0)
+        v.cover('nothing-acceptable')
+        return
+    v.check('handler-looked-up-for-the-preferred-type', len(mh.resolves) == 1 and mh.resolves[0][0] == preferred)
+    if len(mh.resolves) != 1:
+        return
+    exp = expected_dict(f)
+    h = mh.handler
+    if preferred == MEDIA_JSON:
+        if h is not None:
+            ok = len(h.calls) == 1 and dict_is(h.calls[0][0], exp) and h.calls[0][1] == MEDIA_JSON and data is h.calls[0][2]
+        elif v.concrete:
+            ok = veq(json_of(data), exp)
+        else:
+            calls = v.ctx.ghost.get('default_json', [])
+            ok = len(calls) == 1 and dict_is(calls[0][0], exp) and calls[0][1] == MEDIA_JSON and data is calls[0][2]
+        v.check('json-body-is-the-encoding-of-to-dict', ok)
+        v.check('json-body-leaves-media-unset', media is None)
+        v.cover('json-with-handler' if h is not None else 'json-builtin')
+    elif h is not None:
+        v.check('configured-media-type-gets-to-dict-as-media', dict_is(media, exp) and rendered is unset)
+        v.check('configured-media-type-leaves-data-unset', data is None and len(h.calls) == 0)
+        v.cover('media-handler')
+    elif xml:
+        v.check('xml-body-is-the-encoding-of-the-error-fields', xml_doc_is(v, data, f))
+        v.check('xml-body-leaves-media-unset', media is None)
+        v.cover('xml-builtin')
+    else:
+        v.check('no-serializer-for-preferred-type-no-body', data is None and media is None)
+        v.cover('no-serializer')
+    v.check('content-type-is-the-negotiated-type-and-only-vary-else-changes', H1.eq(H0.put('content-type', preferred).put('vary', vary)))
+
+
+for _x in (0, 1):
+    for _r in (0, 1, 2):
+        harness(PROP, DSE, name='default_serialize_error[xml=%d,registered=%d]' % (_x, _r), setup=_error_setup,
+                inline=[HE + '.to_dict', HE + '.to_json', HE + '._to_xml'] + RESP_INLINE,
+                fix={'xml_error_serialization': _x, 'registered-media-types': _r})(default_serialize_error)
+
+
+
+# ---------------------------------------------------------------------------
+# the default configuration end to end: App() as constructed, any raised exception, down to the response fields
+
+
+@stubclass
+class FullReq(NegReq):
+    def __init__(self, v):
+        NegReq.__init__(self, v)
+        self.logged = []
+
+    def log_error(self, msg):
+        self.logged.append(msg)
+
+
+def _chain_setup(reg, ex):
+    _init_setup(reg, ex)
+    _error_setup(reg, ex)
+    _quiet_logger(reg, ex)
+
+
+class Quit(BaseException):
+    """Not derived from Exception (like KeyboardInterrupt): outside the property's promise."""
+
+
+def default_chain(v, asgi):
+    cls = v.real(AAPP if asgi else APP)
+    app = v.obj(cls)
+    built = v.call(app, target=(AAPP if asgi else APP) + '.__init__')
+    if built.exc is not None:
+        v.check('app-constructs', False)
+        return
+    req = FullReq(v)
+    resp, H0 = mk_resp(v)
+    v.set(resp, 'options', Options(True, MediaHandlers(v, REGISTERED[1])))
+    HTTPNotFound, HTTPStatus = v.real('falcon:HTTPNotFound'), v.real('falcon:HTTPStatus')
+    what = v.choose(4, 'raised')
+    f = {'title': v.str('title'), 'description': v.str('description'), 'code': None, 'link': None}
+    if what == 0:
+        ex = mk_exc(v, Sub)
+        status = '500 Internal Server Error'
+        f = {'title': status, 'description': None, 'code': None, 'link': None}
+    elif what == 1:
+        status = v.str('err_status')
+        ex = mk_exc(v, HTTPNotFound, status=status, headers=None, **f)
+    elif what == 2:
+        status = v.str('st_status')
+        ex = mk_exc(v, HTTPStatus, status=status, headers=None, text=v.str('st_text'))
+    else:
+        ex = mk_exc(v, Quit)
+    out = v.call(app, req, resp, ex, {})
+    if what == 3:
+        v.check('non-exception-baseexception-is-not-handled-by-default', out.exc is None and out.value is False)
+        return
+    v.check('never-escapes-and-is-handled', out.exc is None and out.value is True)
+    if out.exc is not None:
+        return
+    v.check('response-status-is-the-raised-status-or-500', v.get(resp, 'status') == status)
+    data, media, text = v.get(resp, '_data'), v.get(resp, '_media'), v.get(resp, 'text')
+    H1 = map_of(v, resp)
+    if what == 2:
+        v.check('http-status-body-is-its-text', And(text == ex.text if v.concrete else text == ex.fields['text'], data is None, media is None, H1.eq(H0)))
+        v.cover('status')
+        return
+    v.check('previous-text-discarded', text is None)
+    vary = (H0.val('vary') + ', Accept') if H0.has('vary') else 'Accept'
+    v.check('vary-accept-appended', And(H1.has('vary'), H1.val('vary') == vary))
+    preferred = req.last
+    a = req.accept.lower()
+    if preferred is None:
+        preferred = MEDIA_JSON if contains(a, '+json') else (MEDIA_XML if contains(a, '+xml') else None)
+    if preferred == MEDIA_JSON:
+        h = v.get(resp, 'options').media_handlers.handler
+        exp = expected_dict(f)
+        if h is not None:
+            ok = len(h.calls) == 1 and dict_is(h.calls[0][0], exp) and data is h.calls[0][2]
+        elif v.concrete:
+            ok = veq(json_of(data), exp)
+        else:
+            calls = v.ctx.ghost.get('default_json', [])
+            ok = len(calls) == 1 and dict_is(calls[0][0], exp) and data is calls[0][2]
+        v.check('json-body-encodes-title-and-description', And(ok, H1.has('content-type'), H1.val('content-type') == MEDIA_JSON))
+        v.cover('json-500' if what == 0 else 'json-error')
+    v.cover('rendered')
+
+
+CHAIN_INLINE = [APP + '.add_error_handler', APP + '._find_error_handler', APP + '._compose_status_response', APP + '._compose_error_response',
+                APP + '._http_status_handler', APP + '._http_error_handler', APP + '._python_error_handler', DSE,
+                HE + '.to_dict', HE + '.to_json', HE + '._to_xml'] + RESP_INLINE
+
+
+@harness(PROP, APP + '._handle_exception', setup=_chain_setup, inline=CHAIN_INLINE)
+def wsgi_default_chain(v):
+    default_chain(v, False)
+
+
+@harness(PROP, AAPP + '._handle_exception', setup=_chain_setup,
+         inline=CHAIN_INLINE + [APP + '.__init__', AAPP + '.add_error_handler', AAPP + '._http_status_handler', AAPP + '._http_error_handler',
+                                AAPP + '._python_error_handler'] + ASYNC_INLINE)
+def asgi_default_chain(v):
+    default_chain(v, True)
+
+
+
 KILLS = [
-    ('falcon/app.py', "        for exc in type(ex).__mro__[:-1]:\n", "        for exc in reversed(type(ex).__mro__[:-1]):\n", '_find_error_handler#handler-of-nearest-registered-class-in-mro'),
+    ('falcon/app.py', "        for exc in type(ex).__mro__[:-1]:\n", "        for exc in reversed(type(ex).__mro__[:-1]):\n",
+     '_find_error_handler#handler-of-nearest-registered-class-in-mro'),
+    ('falcon/app.py', "            self._error_handlers[exc] = handler\n", "            self._error_handlers.setdefault(exc, handler)\n",
+     'falcon.app:App.add_error_handler#latest-registration-per-class-wins'),
     ('falcon/app.py', "        resp.text = resp.data = resp.media = None\n        if err_handler is not None:\n            try:\n                err_handler(req, resp, ex, params)\n",
-     "        if err_handler is not None:\n            try:\n                err_handler(req, resp, ex, params)\n                resp.text = resp.data = resp.media = None\n", 'App._handle_exception#text-discarded-before-handler'),
+     "        if err_handler is not None:\n            try:\n                err_handler(req, resp, ex, params)\n                resp.text = resp.data = resp.media = None\n",
+     'falcon.app:App._handle_exception#text-discarded-before-handler'),
     ('falcon/app.py', "            except HTTPError as error:\n                self._compose_error_response(req, resp, error)\n\n            return True\n",
-     "            except HTTPError as error:\n                pass\n\n            return True\n", 'App._handle_exception#http-error-from-handler-serialized-once'),
+     "            except HTTPError as error:\n                pass\n\n            return True\n", 'falcon.app:App._handle_exception#http-error-from-handler-serialized-once'),
+    ('falcon/app.py', "        self.add_error_handler(HTTPStatus, self._http_status_handler)\n", "", 'App.__init__#http-status-handled-by-http-status-handler'),
+    ('falcon/app_helpers.py', "        resp.content_type = preferred\n\n    resp.append_header('Vary', 'Accept')\n",
+     "        resp.content_type = preferred\n\n        resp.append_header('Vary', 'Accept')\n", 'default_serialize_error#vary-accept-appended'),
+    ('falcon/app.py', "        # handlers.\n        return False\n", "        # handlers.\n        return True\n", 'falcon.app:App._handle_exception#returns-false-when-no-handler'),
+    ('falcon/asgi/app.py', "            resp.text = resp.data = resp.media = None\n", "            resp.text = resp.data = None\n",
+     'falcon.asgi.app:App._handle_exception#media-discarded-before-handler'),
+    ('falcon/http_error.py', "        if self.code is not None:\n            obj['code'] = self.code\n", "        if self.code:\n            obj['code'] = self.code\n",
+     'HTTPError.to_dict#code-present-iff-not-none'),
+    ('falcon/app_helpers.py', "        [MEDIA_JSON, 'text/xml', MEDIA_XML]\n", "        ['text/xml', MEDIA_XML, MEDIA_JSON]\n",
+     'default_serialize_error#offers-json-first-then-xml-if-enabled-then-registered-types'),
+    ('falcon/app.py', "        self._compose_error_response(req, resp, HTTPInternalServerError())\n",
+     "        self._compose_error_response(req, resp, HTTPInternalServerError())\n        raise error\n", 'falcon.app:App._python_error_handler#never-re-raises'),
+    ('falcon/app.py', "        resp.text = http_status.text\n", "        if http_status.text is not None:\n            resp.text = http_status.text\n",
+     '_compose_status_response#text-copied'),
 ]
 HARMLESS = [
+    ('falcon/app.py', "            handler = self._error_handlers.get(exc)\n\n            if handler is not None:\n                return handler\n",
+     "            found = self._error_handlers.get(exc)\n\n            if found is not None:\n                return found\n"),
+    ('falcon/app.py', "        err_handler = self._find_error_handler(ex)\n\n        # NOTE(caselit): Reset body, data and media before calling the handler\n        resp.text = resp.data = resp.media = None\n",
+     "        resp.media = None\n        resp.data = None\n        resp.text = None\n        err_handler = self._find_error_handler(ex)\n"),
 ]
